@@ -110,7 +110,8 @@ Proof.
     change (decode_resp c (CODE_V :: enc_uid uid ++ b32e (le32 sv ++ match err_text e with Some t => 255 :: t | None => [0] end)))
       with (decode_ver (CODE_V :: enc_uid uid ++ b32e (le32 sv ++ match err_text e with Some t => 255 :: t | None => [0] end))).
     unfold decode_ver. cbn [tl].
-    replace (firstn 2 ((enc_uid uid ++ _) ++ [0; 0])) with (enc_uid uid) by reflexivity.
+    replace (length (enc_uid uid ++ _) <? 2)%nat with false by reflexivity.
+    replace (firstn 2 (enc_uid uid ++ _)) with (enc_uid uid) by reflexivity.
     rewrite parse_enc_uid. cbn [bind].
     replace (skipn 2 (enc_uid uid ++ b32e (le32 sv ++ match err_text e with Some t => 255 :: t | None => [0] end)))
       with (b32e (le32 sv ++ match err_text e with Some t => 255 :: t | None => [0] end)) by reflexivity.
@@ -404,7 +405,7 @@ Ltac bind_case H :=
 
 Lemma decode_ver_no_panic r s : decode_ver r <> Panic s.
 Proof.
-  unfold decode_ver. intros H. bind_case H. bind_case H.
+  unfold decode_ver. intros H. destruct (length (tl r) <? 2)%nat; [discriminate |]. bind_case H. bind_case H.
   destruct a0 as [| a1 [| b [| c [| d rest]]]]; try discriminate.
   destruct rest as [| st rest']; [discriminate |].
   destruct (odd_byte st); [eapply status_err_no_panic; exact H | discriminate].
@@ -453,59 +454,48 @@ Proof.
   unfold decode_error. intros H. bind_case H. eapply status_err_no_panic; exact H.
 Qed.
 
-Lemma is_of_type_excl c1 c2 b : 97 <= c1 <= 122 -> 97 <= c2 <= 122 ->
-  is_of_type c1 b = true -> is_of_type c2 b = true -> c1 = c2.
+(* DecodeDnsResponseWithParams never panics: for every downstream codec and every octet string, the empty one included *)
+Theorem decode_resp_total c data s : decode_resp c data <> Panic s.
 Proof.
-  unfold is_of_type, lower_first. intros H1 H2.
-  destruct ((65 <=? b) && (b <=? 90)) eqn:E1; [lia |].
-  destruct (128 <=? b) eqn:E2; lia.
+  unfold decode_resp. destruct data as [| b rest]; [discriminate |].
+  destruct (is_of_type CODE_V b); [apply decode_ver_no_panic |].
+  destruct (is_of_type CODE_L b); [discriminate |].
+  destruct (is_of_type CODE_O b); [apply decode_opt_no_panic |].
+  destruct (is_of_type CODE_R b); [apply decode_frag_no_panic |].
+  destruct (is_of_type CODE_Y b); [apply decode_down_no_panic |].
+  destruct (is_of_type CODE_Z b); [apply decode_up_no_panic |].
+  destruct (is_of_type CODE_M b); [discriminate |].
+  destruct (is_of_type CODE_C b); [apply decode_pkt_no_panic |].
+  destruct (is_of_type CODE_E b); [apply decode_error_no_panic |].
+  discriminate.
 Qed.
 
-Ltac excl c1 EV H :=
-  apply negb_false_iff in H; apply orb_true_iff in H; destruct H as [H | H];
-  [ try discriminate H; pose proof (is_of_type_excl c1 CODE_L _ ltac:(vm_compute; split; discriminate) ltac:(vm_compute; split; discriminate) EV H) as X;
-    vm_compute in X; discriminate X
-  | try discriminate H; pose proof (is_of_type_excl c1 CODE_M _ ltac:(vm_compute; split; discriminate) ltac:(vm_compute; split; discriminate) EV H) as X;
-    vm_compute in X; discriminate X ].
-
-Theorem decode_total_partial c data :
-  (decode_guard data = true -> forall s, decode_resp c data <> Panic s) /\
-  (decode_guard data = false -> exists s, decode_resp c data = Panic s).
-Proof.
-  unfold decode_guard, decode_resp. destruct data as [| b rest].
-  - split; [discriminate | intros _; eexists; reflexivity].
-  - destruct (is_of_type CODE_V b) eqn:EV.
-    + split; [intros _ s; apply decode_ver_no_panic |].
-      intros H. exfalso. excl CODE_V EV H.
-    + destruct (is_of_type CODE_L b) eqn:EL; [split; [discriminate | intros _; eexists; reflexivity] |].
-      destruct (is_of_type CODE_O b) eqn:EO.
-      { split; [intros _ s; apply decode_opt_no_panic |]. intros H. exfalso. excl CODE_O EO H. }
-      destruct (is_of_type CODE_R b) eqn:ER.
-      { split; [intros _ s; apply decode_frag_no_panic |]. intros H. exfalso. excl CODE_R ER H. }
-      destruct (is_of_type CODE_Y b) eqn:EY.
-      { split; [intros _ s; apply decode_down_no_panic |]. intros H. exfalso. excl CODE_Y EY H. }
-      destruct (is_of_type CODE_Z b) eqn:EZ.
-      { split; [intros _ s; apply decode_up_no_panic |]. intros H. exfalso. excl CODE_Z EZ H. }
-      destruct (is_of_type CODE_M b) eqn:EM; [split; [discriminate | intros _; eexists; reflexivity] |].
-      cbn [orb negb].
-      destruct (is_of_type CODE_C b); [split; [intros _ s; apply decode_pkt_no_panic | discriminate] |].
-      destruct (is_of_type CODE_E b); [split; [intros _ s; apply decode_error_no_panic | discriminate] |].
-      split; [intros _ s; discriminate | discriminate].
-Qed.
-
-(* an answer section without usable records unwraps to the empty payload, and IsOfType indexes data[0] *)
-Theorem decode_empty_panics_refuted :
+(* an answer section without usable records unwraps to the empty payload: an error now, as is a reserved command letter *)
+Theorem decode_empty_is_error :
   (exists w m', w_rrs w = [] /\ unpack w = Ok m' /\ unwrap m' (wd "example.org") = Ok [] /\
-                decode_resp Base32 [] = Panic (wd "commands.Command.IsOfType")) /\
+                decode_resp Base32 [] = Err (wd "unknown")) /\
   (exists w m', w_rrs w = [(65001, [1; 2])] /\ unpack w = Ok m' /\ unwrap m' (wd "example.org") = Ok [] /\
-                decode_resp Base32 [] = Panic (wd "commands.Command.IsOfType")) /\
-  (* a payload that starts with a reserved command letter *)
+                decode_resp Base32 [] = Err (wd "unknown")) /\
   (exists w m' p, w_rrs w = [(10, [1; 0; 108; 97; 98])] /\ unpack w = Ok m' /\ unwrap m' (wd "example.org") = Ok p /\
-                  decode_resp Base32 p = Panic (wd "commands.Serializer.DecodeDnsResponseWithParams")).
+                  decode_resp Base32 p = Err (wd "unknown")).
 Proof.
   split; [| split].
   - exists {| w_q := [1; 120; 0]; w_ancount := 0; w_rrs := [] |}. eexists. repeat split; vm_compute; reflexivity.
   - exists {| w_q := [1; 120; 0]; w_ancount := 1; w_rrs := [(65001, [1; 2])] |}. eexists. repeat split; vm_compute; reflexivity.
   - exists {| w_q := [1; 120; 0]; w_ancount := 1; w_rrs := [(10, [1; 0; 108; 97; 98])] |}. eexists. eexists.
     split; [reflexivity |]. split; [vm_compute; reflexivity |]. split; vm_compute; reflexivity.
+Qed.
+
+(* the client's whole decoding path on an arbitrary answer section: never the panic token *)
+Theorem client_side_total c dom w : forall s, client_side c dom w <> [W "panic"; TW s] /\ hd_error (client_side c dom w) <> Some (W "panic").
+Proof.
+  intros s. unfold client_side.
+  destruct (unpack w) as [m' | e | s'] eqn:EU.
+  - destruct (unwrap_total m' dom) as [p ->].
+    destruct (decode_resp c p) as [r | e | s'] eqn:ED.
+    + split; [discriminate | cbn; discriminate].
+    + split; [discriminate | cbn; discriminate].
+    + exfalso. eapply decode_resp_total; exact ED.
+  - split; cbn; discriminate.
+  - exfalso. eapply unpack_no_panic; exact EU.
 Qed.
